@@ -35,7 +35,10 @@ func zzC03_avp() {
 		vKnown("KF-C03-vflag-short", b[4]&0x80 != 0 && l >= 8 && l < 12 && l <= n)
 	}
 	a, err := DecodeAVP(b, app, d)
+	vObserve("decoded", zzB2U(err == nil))
 	if err == nil {
+		vObserve("Len", uint64(a.Len()))
+		vObserve("type", uint64(a.Data.Type()))
 		zzInspectAVP(a)
 	}
 	vReach("C03_avp")
@@ -69,7 +72,10 @@ func zzC03_msg() {
 	vAssume(ml == n)
 	vAllocLimit(64*n + 4096 + 2*MessageBufferLength)
 	m, err := ReadMessage(zzNewReader(b), d)
+	vObserve("read", zzB2U(err == nil))
 	if err == nil {
+		vObserve("navps", uint64(len(m.AVP)))
+		vObserve("Len", uint64(m.Len()))
 		zzInspectMessage(m)
 	}
 	vReach("C03_msg")
@@ -197,7 +203,12 @@ func zzC03_unmarshal() {
 	vAssume(err == nil)
 	var dst zzU0
 	uerr := m.Unmarshal(&dst)
-	_ = uerr
+	vObserve("unmarshal.err", zzB2U(uerr != nil))
+	vObserve("dst.Num", uint64(dst.Num))
+	vObserveBytes("dst.Str", []byte(dst.Str))
+	vObserve("dst.Ptr", zzB2U(dst.Ptr != nil))
+	vObserve("dst.List", uint64(len(dst.List)))
+	vObserve("dst.Nums", uint64(len(dst.Nums)))
 	vAssert(dst.Ignored == 0, "untagged field untouched")
 	vReach("C03_unmarshal")
 }
